@@ -79,15 +79,21 @@ const (
 // build signs a segment of n entries over ASes 1..n; idBase separates the ids of different segments;
 // special[i] selects a non-standard signer for entry i.
 func (b *builder) build(n int, exps []int, ctxinfo, idBase int, special map[int]int) (*seg.PathSegment, []tag) {
-	ctx := context.Background()
 	t0 := b.w.T(b.off)
 	ts := t0.Add(time.Duration(b.tsRe) * time.Second)
 	ps, err := seg.CreateSegment(ts, uint16(b.rng.Intn(1<<16)))
 	if err != nil {
 		vt.Fatal("create: %v", err)
 	}
-	var tags []tag
-	for i := 0; i < n; i++ {
+	return b.extend(ps, nil, n, exps, ctxinfo, idBase, special)
+}
+
+// extend continues segment ps (whose entries have the given tags) up to n entries.
+func (b *builder) extend(ps *seg.PathSegment, tags []tag, n int, exps []int, ctxinfo, idBase int,
+	special map[int]int) (*seg.PathSegment, []tag) {
+	ctx := context.Background()
+	tags = append([]tag{}, tags...)
+	for i := len(tags); i < n; i++ {
 		a := i + 1
 		local := b.w.IA(a)
 		var next addr.IA
@@ -137,7 +143,9 @@ func (b *builder) build(n int, exps []int, ctxinfo, idBase int, special map[int]
 	}
 	pb := seg.PathSegmentToPB(ps)
 	for i := range tags {
-		tags[i].pb = clonePB(pb.AsEntries[i])
+		if tags[i].pb == nil {
+			tags[i].pb = clonePB(pb.AsEntries[i])
+		}
 	}
 	return ps, tags
 }
@@ -259,7 +267,16 @@ func main() {
 			for rep := 0; rep < 4; rep++ {
 				e := cp()
 				x, y := rng.Intn(ne), rng.Intn(ne)
-				switch rng.Intn(7) {
+				switch rng.Intn(8) {
+				case 7: // splice: the beacon was extended twice after entry x-1; take the other branch's entry x
+					if ne < 2 || x == 0 || x == ne-1 {
+						continue
+					}
+					pre := &seg.PathSegment{Info: ps.Info, ASEntries: append([]seg.ASEntry{}, ps.ASEntries[:x]...)}
+					_, btags := b.extend(pre, e[:x], ne, exps, 0, 200, nil)
+					sp := append(append(append([]tag{}, e[:x]...), btags[x]), e[x+1:]...)
+					verify("splice-entry-of-sibling-branch", t0, b.tsRe, info, 0, sp)
+					verify("sibling-branch-itself", t0, b.tsRe, info, 0, btags)
 				case 0:
 					if x == y {
 						continue
